@@ -18,6 +18,7 @@ mod queue;
 mod sctl;
 mod subj;
 mod subjlts;
+mod timedlts;
 mod tovec;
 
 use another_rxrust::verif_facade as facade;
@@ -215,6 +216,7 @@ fn build(e: &Sexp) -> Option<Box<dyn Scenario>> {
     "subj" => subj::build(a),
     "pipe" => pipe::build(a),
     "sctl" => sctl::build(a),
+    "timedlts" => timedlts::build(a),
     _ => None,
   }
 }
